@@ -124,6 +124,38 @@ def run(chk, b, tier):
                 chk.violation("C12/not-monotone", {"n": c["n"], "prev": prev[binary][0], "h": c["h"]})
             prev[binary] = (c["n"], mag)
     chk.cov["python_rejudged"] = len(obs)
+    # rendered numbers in situ: table cells (also in rows whose name is wider than the name column) must be correct
+    # renderings of the JSON values of the same HistorySize
+    import base64
+    from .. import oracle as O
+    from .. import parse_out as P
+    from .C11 import check_formats
+    cases = []
+    for i in range(60 if tier == "quick" else 600):
+        fields = {k: min(O.CAPS[k], rng.choice([0, 7, 123, 999, 1000, 1023, 1024, 12500, 99999, 10 ** 6 + 1, rng.getrandbits(rng.randint(1, 63))]))
+                  for k in O.CAPS}
+        nm = lambda base: base + "-" + "w" * rng.choice([0, 10, 18, 20, 22, 24, 25, 28, 33, 50])
+        groups = [{"symbol": "", "name": "Refs"}, {"symbol": "g1", "name": nm("One")}, {"symbol": "g1.sub", "name": nm("Sub")},
+                  {"symbol": "g2", "name": nm("Two")}]
+        gc = {"": 9, "g1": rng.choice([7, 123, 12500, 1234567]), "g1.sub": rng.choice([1, 100, 99999]), "g2": rng.choice([5, 4321, 10 ** 9])}
+        cases.append({"id": i, "fields": fields, "groups": groups, "group_counts": gc, "thresholds": ["0", "-1"], "names": ["none"]})
+    obs2, rc, err = R.drv(drv, "output", cases)
+    if len(obs2) != len(cases):
+        chk.inconc("output driver returned %d of %d" % (len(obs2), len(cases)))
+    for o in obs2:
+        chk.count()
+        if "panic" in o:
+            chk.violation("C12/in-table/panic", {"panic": o["panic"]})
+            continue
+        rd = o["renders"][0]
+        j1, _ = P.parse_json(base64.b64decode(rd["json1"]) + b"\n")
+        j2, _ = P.parse_json(base64.b64decode(rd["json2"]) + b"\n")
+        tables = [(ts, base64.b64decode(rd["table:" + ts])) for ts in ("0", "-1") if ("table:" + ts) in rd]
+        gn = {g["symbol"]: g["name"] for g in cases[o["id"]]["groups"]}
+        for clause, det in check_formats(j1, j2, tables, "c12", group_names=gn):
+            if "rendering" in clause or "unparsable" in clause:
+                chk.violation("C12/in-table/" + clause, det)
+    chk.cov["tables_rendered_for_in_situ_check"] = len(obs2)
     chk.cov["rule"] = ("real counts.Metric/Binary.FormatNumber on exhaustive +-64 neighbourhoods of every prefix boundary and "
                        "precision switch, every band edge tie and 1000 seeded ties per band, 2^k+-2, 2^64-1, plus stratified "
                        "random values (log-uniform and mantissa-uniform); integer-only Go reference judges every clause; an "
